@@ -32,7 +32,7 @@ RULE = (
     "(float64, 1-D, C order) and variants: permuted points; 2-D, Fortran-ordered, strided, reversed-view, read-only and pandas-Series (shuffled index "
     "labels) containers of the same element sequence; extra ignored coordinates; integer-valued coordinates and/or data passed as int64 / int32 "
     "(and general float coordinates with integer data); queries reshaped to 0-d / 2-D / 3-D / Fortran / strided; queries with a size-1 northing; "
-    "linearity triples (d1, d2, a d1 + b d2) with a, b in +-10^[-12,12] or compensating the data magnitude, d2 in the same or another magnitude class, also with the caller re-using one data buffer. Option values are also spelled differently (numpy.bool_ / comparison result / 1, 0 / 0-d array for rescale; int, numpy integer, numpy float for mindist, damping, poisson, k, degree; keyword, positional, set_params) and compared with the plain spelling. Data magnitudes cycle through 1e-15, 1e-12, 1e-9, 1e-6, 1, 1e6, 1e12 (tolerances stay relative); coordinate extents 1e-2..1e6 and (30 %) 1e-8..1e12. Point sets are in general "
+    "linearity triples (d1, d2, a d1 + b d2) with a, b in +-10^[-12,12] or compensating the data magnitude, d2 in the same or another magnitude class, also with the caller re-using one data buffer. Option values are also spelled differently (numpy.bool_ / comparison result / 1, 0 / 0-d array for rescale; int, numpy integer, numpy float for mindist, damping, poisson, k, degree; keyword, positional, set_params) and compared with the plain spelling. Every group is also queried 2, 10 and 100 bounding-box diagonals outside the data (point order with another last point, layout, integer dtypes; KNeighbors with k up to n against brute force), and a few Spline cases predict n_query x n_forces > 1e7 in one call (1499..1513 forces, 7001 / 20011 queries) against slices of 500, a permuted fit and the reference model. Data magnitudes cycle through 1e-15, 1e-12, 1e-9, 1e-6, 1, 1e6, 1e12 (tolerances stay relative); coordinate extents 1e-2..1e6 and (30 %) 1e-8..1e12. Point sets are in general "
     "position, 4..150 points, scales 1e-2..1e6. A variant is non-trivial when the group has >= 4 points, non-constant data and the transformation "
     "really changed memory layout / container / order / dtype (checked on the arrays); distinct = hash of gridder configuration + inputs + variant."
 )
@@ -77,6 +77,14 @@ FLOORS = {  # ~40 % of what the unchanged tree produces at quick seed 0 (see evi
         "groups:spelling:vector": 3, "option_spelling:cubic": 48, "option_spelling:keyword": 73, "option_spelling:linear": 48,
         "option_spelling:neighbors": 38, "option_spelling:positional": 73, "option_spelling:set_params": 89, "option_spelling:spline": 32,
         "option_spelling:trend": 38, "option_spelling:vector": 32, "option_spelling:within_strict_tolerance": 236, "eval:option_spelling": 236,
+        "far_extrapolation:knn_brute_force": 17, "far_extrapolation:knn_k=n": 2, "far_extrapolation:knn_k=n-1": 2,
+        "far_extrapolation:knn_k=small": 12, "far_extrapolation:layout:chain": 6, "far_extrapolation:layout:cubic": 8,
+        "far_extrapolation:layout:linear": 9, "far_extrapolation:layout:neighbors": 18, "far_extrapolation:layout:spline": 38,
+        "far_extrapolation:layout:trend": 26, "far_extrapolation:layout:vector": 18, "far_extrapolation:layout:vector_of": 6,
+        "far_extrapolation:permutation:chain": 5, "far_extrapolation:permutation:cubic": 8, "far_extrapolation:permutation:linear": 9,
+        "far_extrapolation:permutation:neighbors": 18, "far_extrapolation:permutation:spline": 36, "far_extrapolation:permutation:trend": 22,
+        "far_extrapolation:permutation:vector": 16, "far_extrapolation:permutation:vector_of": 5, "large:slices_of_500": 1, "large:permutation": 1,
+        "large:reference_subsample": 1, "large:n_queries=7001": 1, "eval:far_extrapolation": 274, "eval:large_call": 3,
     },
     "thorough": {
         "eval:broadcast_shape": 4040, "eval:dtype_invariance": 12880, "eval:extra_coords_ignored": 2640, "eval:fitted_model_owns_its_data": 1000,
@@ -109,7 +117,15 @@ FLOORS = {  # ~40 % of what the unchanged tree produces at quick seed 0 (see evi
         "groups:spelling:spline": 60, "groups:spelling:trend": 60, "groups:spelling:vector": 60, "option_spelling:cubic": 960,
         "option_spelling:keyword": 1460, "option_spelling:linear": 960, "option_spelling:neighbors": 760, "option_spelling:positional": 1460,
         "option_spelling:set_params": 1780, "option_spelling:spline": 640, "option_spelling:trend": 760, "option_spelling:vector": 640,
-        "option_spelling:within_strict_tolerance": 4720, "eval:option_spelling": 4720,
+        "option_spelling:within_strict_tolerance": 4720, "eval:option_spelling": 4720, "far_extrapolation:knn_brute_force": 340,
+        "far_extrapolation:knn_k=n": 40, "far_extrapolation:knn_k=n-1": 40, "far_extrapolation:knn_k=small": 240,
+        "far_extrapolation:layout:chain": 120, "far_extrapolation:layout:cubic": 160, "far_extrapolation:layout:linear": 180,
+        "far_extrapolation:layout:neighbors": 360, "far_extrapolation:layout:spline": 760, "far_extrapolation:layout:trend": 520,
+        "far_extrapolation:layout:vector": 360, "far_extrapolation:layout:vector_of": 120, "far_extrapolation:permutation:chain": 100,
+        "far_extrapolation:permutation:cubic": 160, "far_extrapolation:permutation:linear": 180, "far_extrapolation:permutation:neighbors": 360,
+        "far_extrapolation:permutation:spline": 720, "far_extrapolation:permutation:trend": 440, "far_extrapolation:permutation:vector": 320,
+        "far_extrapolation:permutation:vector_of": 100, "large:slices_of_500": 4, "large:permutation": 4, "large:reference_subsample": 4,
+        "large:n_queries=7001": 4, "large:n_queries=20011": 4, "eval:far_extrapolation": 5480, "eval:large_call": 24,
     },
 }
 JOBS = {"quick": 1, "thorough": 16}
@@ -118,8 +134,8 @@ CASE_TIMEOUT_S = 240
 
 def plan(tier):
     if tier == "quick":
-        return collections.OrderedDict(spline=70, trend=65, vector=32, neighbors=46, scipy=46, composite=32, forces=40, spelling=48)
-    return collections.OrderedDict(spline=1400, trend=1300, vector=640, neighbors=920, scipy=920, composite=640, forces=800, spelling=960)
+        return collections.OrderedDict(spline=70, trend=65, vector=32, neighbors=46, scipy=46, composite=32, forces=40, spelling=48, large=2)
+    return collections.OrderedDict(spline=1400, trend=1300, vector=640, neighbors=920, scipy=920, composite=640, forces=800, spelling=960, large=16)
 
 
 # ----------------------------------------------------------------------
@@ -519,6 +535,9 @@ def run_group(run, rng, model, east, north, data, weights, qe, qn, integer_base=
                              % (east.size, model.params["force_coords"][0].size), tuple(refm["pred"]), base, tol_cond + tol_layout + refm["kernel_slack"], base_witness, "reference")
             run.observe_max("reference_agreement_error_over_tolerance", worst)
 
+    # -- far extrapolation ------------------------------------------------------------------------
+    _far_extrapolation(run, rng, model, group, conf, east, north, data, weights, est0, attempt, nontrivial)
+
     # -- refit histories on one instance ------------------------------------------------------
     _refit_histories(run, rng, model, group, conf, east, north, data, weights, qe, qn, base, tol_cond, informative, nontrivial, attempt)
 
@@ -561,6 +580,9 @@ def _refit_histories(run, rng, model, group, conf, east, north, data, weights, q
     histories = [("same_points_permuted", everything, pick(perm))]
     histories.append([("subset", everything, pick(keep)), ("superset", pick(keep), everything), ("other_points_same_size" if m == n else "other_points", other, everything)][int(rng.integers(0, 3))])
     for hname, first, second in histories:
+        if model.kind == "neighbors" and model.params["k"] > min(first[0][0].size, second[0][0].size):
+            run.count("skipped:refit_history_k_exceeds_the_number_of_points")  # k > n_data is not a configuration of the statement
+            continue
         wit = dict(conf, variant="refit:" + hname, first_east=first[0][0], first_north=first[0][1], first_data=list(first[1]), second_east=second[0][0],
                    second_north=second[0][1], second_data=list(second[1]), query_east=qe, query_north=qn,
                    second_weights=None if second[2] is None else list(second[2]))
@@ -873,6 +895,8 @@ def _integer_inputs(rng, n, ncomp, radius=None, inside=False):
     else:
         qe = np.round(rng.uniform(ei.min(), ei.max(), q))
         qn = np.round(rng.uniform(ni.min(), ni.max(), q))
+    fe, fn = _far_points(rng, ei, ni)  # integer-valued queries 2 and 100 diagonals outside the data as well
+    qe, qn = np.concatenate([qe, np.round(fe[[0, 5]])]), np.concatenate([qn, np.round(fn[[0, 5]])])
     return ei, ni, di, (qe, qn)
 
 
@@ -1027,8 +1051,8 @@ def _stream_vector(run, rng, verde, index):
 def _stream_neighbors(run, rng, verde, index):
     n = int(rng.integers(6, 150))
     east, north, data, _ = _inputs(rng, n, 1, False, scale=_coord_scale(rng, 1e-2, 1e6), magnitude=_magnitude(index))
-    k = int([1, 1, 2, 3, 5][index % 5])
-    use_median = index % 7 == 6 and k >= 3
+    k = int([1, 1, 2, 3, 5, n, n - 1][index % 7])  # up to all data points
+    use_median = index % 11 == 10 and 3 <= k <= 5
     kwargs = {"k": k}
     if use_median:
         kwargs["reduction"] = np.median
@@ -1228,7 +1252,133 @@ def _stream_spelling(run, rng, verde, index):
     run.sample("spelling", {"gridder": model.label, "spellings": [v[0] for v in variants], "compared": "predictions with option values spelled differently against the plain spelling"})
 
 
-_STREAMS = {"spelling": _stream_spelling, "forces": _stream_forces, "spline": _stream_spline, "trend": _stream_trend, "vector": _stream_vector, "neighbors": _stream_neighbors, "scipy": _stream_scipy,
+def _far_points(rng, east, north):
+    """Query points 2, 10 and 100 bounding-box diagonals outside the data region (two directions each)."""
+    ce, cn = 0.5 * (east.min() + east.max()), 0.5 * (north.min() + north.max())
+    diag = float(np.hypot(np.ptp(east), np.ptp(north))) or 1.0
+    fe, fn = [], []
+    for factor in (2.0, 10.0, 100.0):
+        for _ in range(2):
+            ang = rng.uniform(0, 2 * np.pi)
+            fe.append(ce + (0.5 + factor) * diag * np.cos(ang))
+            fn.append(cn + (0.5 + factor) * diag * np.sin(ang))
+    return np.array(fe), np.array(fn)
+
+
+def _far_extrapolation(run, rng, model, group, conf, east, north, data, weights, est0, attempt, nontrivial):
+    """Invariance far outside the data region: point order (with a different LAST data point), layout; KNeighbors against brute force."""
+    n = east.size
+    if n < 4:
+        return
+    fe, fn = _far_points(rng, east, north)
+    if model.kind == "neighbors":
+        fe, fn = _drop_knn_ties(east, north, fe, fn, model.params["k"])
+        if fe.size == 0:
+            run.count("skipped:knn_ties")
+            return
+    wit0 = dict(conf, east=east, north=north, data=list(data), weights=None if weights is None else list(weights), query_east=fe, query_north=fn, variant="far_extrapolation")
+    base = attempt("far_extrapolation", "base", lambda: _flat(_predict(est0, (fe, fn))), wit0, "far")
+    if base is None:
+        return
+    with np.errstate(all="ignore"):
+        refm = reference(model, east, north, data, weights, fe, fn)
+    rel = K_COND * refm["kappa_eff"] * EPS
+    informative = (refm["skip"] is None and rel <= UNINFORMATIVE) or model.qhull or model.kind == "neighbors"
+    tol_strict = 64 * EPS * refm["terms"]
+    tol_cond = max(rel if np.isfinite(rel) else 0.0, model.rtol) * refm["scale"]
+    # another order of the same points whose LAST point differs
+    perm = rng.permutation(n)
+    while perm[-1] == n - 1 or np.array_equal(perm, np.arange(n)):
+        perm = rng.permutation(n)
+    pdata = tuple(d[perm] for d in data)
+    pweights = None if weights is None else tuple(w[perm] for w in weights)
+    wit = dict(wit0, variant="far_extrapolation:permutation", permutation=perm)
+    got = attempt("far_extrapolation", "perm", lambda: _flat(_predict(_fit(model, (east[perm], north[perm]), pdata, pweights), (fe, fn))), wit, "far-perm")
+    if got is not None:
+        if not informative:
+            run.count("skipped:uninformative_far_extrapolation")
+        else:
+            run.evaluated("far_extrapolation")
+            run.count("far_extrapolation:permutation:" + model.kind)
+            worst = _compare(run, "far_extrapolation", group, "points permuted (another last point), queries 2-100 diagonals outside the data", base, got,
+                             tol_cond + tol_strict, wit, "far-perm")
+            run.observe_max("far_permutation_error_over_tolerance", worst)
+    # one re-laid-out container
+    lname, conts = list(gen.layouts((east, north) + tuple(data) + (tuple(weights) if weights is not None else ()), rng,
+                                    include=(("reversed_view", "strided", "series", "readonly")[int(rng.integers(0, 4))],)))[0]
+    cd = tuple(conts[2:2 + model.ncomp])
+    cw = None if weights is None else tuple(conts[2 + model.ncomp:])
+    wit = dict(wit0, variant="far_extrapolation:" + lname)
+    got = attempt("far_extrapolation", lname, lambda: _flat(_predict(_fit(model, (conts[0], conts[1]), cd, cw), (fe, fn))), wit, "far-layout")
+    if got is not None:
+        run.evaluated("far_extrapolation")
+        run.count("far_extrapolation:layout:" + model.kind)
+        _compare_refit(run, "far_extrapolation", group, lname + " containers, queries far outside the data", base, got, tol_strict, tol_cond, informative, wit, "far-layout")
+    # KNeighbors with the mean: brute-force k nearest
+    if model.kind == "neighbors" and model.linear:
+        k = min(model.params["k"], n)
+        dist = np.hypot(fe[:, None] - east[None, :], fn[:, None] - north[None, :])
+        nearest = np.argsort(dist, axis=1, kind="stable")[:, :k]
+        want = (data[0][nearest].mean(axis=1),)
+        run.evaluated("far_extrapolation")
+        run.count("far_extrapolation:knn_brute_force")
+        run.count("far_extrapolation:knn_k=%s" % ("n" if k == n else "n-1" if k == n - 1 else "small"))
+        _compare(run, "far_extrapolation", group, "mean of the brute-force %d nearest data points, queries far outside the data" % k, want, base,
+                 64 * EPS * float(np.max(np.abs(data[0]))), wit0, "far-knn")
+    if nontrivial:
+        run.mark_nontrivial("far", conf, east, north, data, fe, fn)
+
+
+def _stream_large(run, rng, verde, index):
+    """n_query x n_forces > 1e7 in ONE predict call, n_forces not a multiple of small block lengths."""
+    n = int([1501, 1507, 1513, 1499][index % 4])
+    nq = int([7001, 20011][index % 2]) if run.tier == "thorough" else 7001
+    scale = gen.log_uniform(rng, 1e1, 1e5)
+    east, north = gen.cloud(rng, n, kind=str(rng.choice(["uniform", "jitter"])), scale=scale, offset_factor=0.0)
+    data = (gen.smooth_field(rng, east, north, _magnitude(4)),)
+    damping = float(10 ** rng.uniform(-3, 0))
+    model = Model("spline", "Spline(damping=%g)[%d data, %d queries in one call]" % (damping, n, nq), lambda: verde.Spline(damping=damping), linear=True, mindist=0.0, damping=damping,
+                  force_coords=None)
+    qe, qn = rng.uniform(east.min(), east.max(), nq), rng.uniform(north.min(), north.max(), nq)
+    conf = {"gridder": model.label, "n_data": n, "n_queries": nq}
+    est = _fit(model, (east, north), data, None)
+    whole = _flat(_predict(est, (qe, qn)))
+    sub = rng.choice(nq, 48, replace=False)
+    sub[0], sub[1] = nq - 1, nq - 2  # the tail of the call is where a dropped remainder shows
+    with np.errstate(all="ignore"):
+        refm = reference(model, east, north, data, None, qe[sub], qn[sub])
+    terms_scale = 4.0 * float(np.max(refm["terms"]))
+    rel = K_COND * refm["kappa_eff"] * EPS
+    run.count("large:n_forces=%d" % n)
+    run.count("large:n_queries=%d" % nq)
+    # the sub-sample against the reference model
+    if refm["skip"] is None and rel <= UNINFORMATIVE:
+        run.evaluated("large_call")
+        run.count("large:reference_subsample")
+        _compare(run, "large_call", model.label, "sub-sample (incl. the last points) of one large predict call vs reference least squares", tuple(refm["pred"]), (whole[0][sub],),
+                 rel * refm["scale"] + 64 * EPS * refm["terms"] + refm["kernel_slack"], dict(conf, query_index=sub), "large-reference")
+    # the same points in slices of 500
+    pieces = np.concatenate([_flat(_predict(est, (qe[a:a + 500], qn[a:a + 500])))[0] for a in range(0, nq, 500)])
+    run.evaluated("large_call")
+    run.count("large:slices_of_500")
+    run.count("large:bit_identical_to_slices" if np.array_equal(pieces, whole[0]) else "large:slices_differ_within_round_off")
+    _compare(run, "large_call", model.label, "all %d points in one call vs slices of 500" % nq, (pieces,), whole, 64 * EPS * terms_scale, conf, "large-slices")
+    # another order of the data points
+    perm = rng.permutation(n)
+    got = _flat(_predict(_fit(model, (east[perm], north[perm]), (data[0][perm],), None), (qe, qn)))
+    if refm["skip"] is None and rel <= UNINFORMATIVE:
+        run.evaluated("large_call")
+        run.count("large:permutation")
+        worst = _compare(run, "large_call", model.label, "data points permuted, %d x %d kernel evaluations in one call" % (nq, n), whole, got,
+                         rel * max(refm["scale"], float(np.max(np.abs(whole[0])))) + 64 * EPS * terms_scale, dict(conf, permutation=perm), "large-perm")
+        run.observe_max("large_permutation_error_over_tolerance", worst)
+    else:
+        run.count("skipped:uninformative_large")
+    run.mark_nontrivial("large", conf, east, north, data)
+    run.sample("large", {"gridder": model.label, "compared": "one predict call with n_query x n_forces > 1e7 vs slices of 500, vs a permuted fit and (sub-sample) vs the reference model"})
+
+
+_STREAMS = {"large": _stream_large, "spelling": _stream_spelling, "forces": _stream_forces, "spline": _stream_spline, "trend": _stream_trend, "vector": _stream_vector, "neighbors": _stream_neighbors, "scipy": _stream_scipy,
             "composite": _stream_composite}
 
 
